@@ -571,6 +571,12 @@ def play_prelude(obs, src, items, prelude):
        ['peek', j]           - take(j) placed after the pipeline (the usual "look at the first records")
     Nothing is judged here; whatever these leave behind must not show in the judged subscription."""
     import rx.operators as rxops
+    from .muxmon import suspended
+    with suspended():
+        return _play_prelude(obs, src, items, prelude, rxops)
+
+
+def _play_prelude(obs, src, items, prelude, rxops):
     n_done = 0
     for kind, k in prelude:
         k = max(0, min(k, len(items)))
@@ -686,6 +692,10 @@ def run_driven(prog, items, mode='mux', env=None, prelude=None):
     snap = Snap(cursor)
     ops_ = build(prog, env)
     prelude = usable_prelude(prog, prelude)
+    if mode != 'mux' and 'tee_map' in op_names(prog):
+        # on a plain observable first / take complete their branch early: a tee_map behind them then publishes a
+        # source that completed during the aborted run, and only completes in every later one (RxPY publish())
+        prelude = None
     if prelude:
         subj = Controlled()
         obs = subj.observable.pipe(rs.state.with_memory_store(ops_)) if mode == 'mux' else (subj.observable.pipe(*ops_) if ops_ else subj.observable)
